@@ -434,7 +434,7 @@ class FakeFuture:
         self.cbs.append(c)
 
 
-def variants(params):
+def variants(params, rng=None, extra=0):
     """argument layouts: list of (label, [positional param names], [keyword param names], nstar)"""
     P = inspect.Parameter
     poskw = [p for p in params if p.kind == P.POSITIONAL_OR_KEYWORD]
@@ -463,6 +463,13 @@ def variants(params):
     for p in poskw + kwonly:
         if p.default is not P.empty:
             out.append((f"explicit-default-{p.name}", req, kreq + [p.name + "=<default>"], 0))
+    # thorough tier: random positional-prefix / keyword-subset splits (keywords in random order)
+    for j in range(extra if rng is not None else 0):
+        allp = req + opt
+        i = rng.randrange(0, len(allp) + 1)
+        rest = [n for n in allp[i:] if n in req or rng.random() < 0.6] + kreq + [n for n in kopt if rng.random() < 0.6]
+        rng.shuffle(rest)
+        out.append((f"random-split-{j}", allp[:i], rest, rng.choice(stars) if i == len(allp) else 0))
     seen, res = set(), []
     for v in out:
         k = (tuple(v[1]), tuple(v[2]), v[3])
@@ -636,7 +643,7 @@ def run(chk):
                 for p in params_of(ofn, False)] if ofn else None
         if ms != osig:
             sig_notes[name] = {"method": ms, "operator": osig}
-        for layout in variants(params_of(mfn, True)):
+        for layout in variants(params_of(mfn, True), chk.rng, 0 if chk.tier == "quick" else 12):
             for kind in ("completes", "fails"):
                 try:
                     a = run_form("method", name, mfn, layout, kind, ints, G, S)
@@ -645,8 +652,8 @@ def run(chk):
                     missing_recipe.append(str(e))
                     break
                 chk.cov["evaluations"] += 2
-                hist["layouts"][layout[0].split("+")[0].split("-")[0]] = \
-                    hist["layouts"].get(layout[0].split("+")[0].split("-")[0], 0) + 1
+                lk = layout[0].split("+")[0].split("-")[0]
+                hist["layouts"][lk] = hist["layouts"].get(lk, 0) + 1
                 hist["source"][kind] += 1
                 if "raise" in a and "raise" in b:
                     hist["construction_TypeError_both"] += 1
